@@ -516,10 +516,12 @@ void ICACHE_FLASH_ATTR supla_esp_mqtt_conn_on_connect(void *arg) {
   supla_esp_mqtt_prepare_topic(&will_topic, "state/connected");
 
   char *username = NULL;
-  char password[300];
+  char _password[300];
+  char *password = NULL;
 
   if (!(supla_esp_cfg.Flags & CFG_FLAG_MQTT_NO_AUTH)) {
     username = supla_esp_cfg.Username;
+    password = _password;
     int passwordLen =
         strnlen(supla_esp_cfg.Password, SUPLA_LOCATION_PWD_MAXSIZE);
     memcpy(password, supla_esp_cfg.Password, passwordLen);
